@@ -703,17 +703,18 @@ def r8_break_placement(ctx):
     # (b) the text scanned is the statement's own lines
     arg = ec.args[0] if ec.args else None
     ok = False
+    def has_stmt_slice(node, e, depth=0):
+        for x in ast.walk(e):
+            if isinstance(x, ast.Subscript) and isinstance(x.slice, ast.Slice) and is_name(x.slice.lower, s1) and is_name(x.slice.upper, s2) and x.slice.step is None:
+                return True
+        if depth < 3:
+            for nm in [x for x in ast.walk(e) if isinstance(x, ast.Name) and isinstance(x.ctx, ast.Load)]:
+                ds = [d for d in rd.at(node, nm.id) if d.kind == 'assign' and isinstance(d.value, ast.AST) and graph.in_loop_body(d.node, head.ast)]
+                if ds and all(has_stmt_slice(d.node, d.value, depth + 1) for d in ds):
+                    return True
+        return False
     if arg is not None:
-        names = [x for x in ast.walk(arg) if isinstance(x, ast.Name) and isinstance(x.ctx, ast.Load)]
-        for nm in names:
-            for d in rd.at(en, nm.id):
-                v = d.value
-                if isinstance(v, ast.Subscript) and isinstance(v.slice, ast.Slice) and is_name(v.slice.lower, s1) and is_name(v.slice.upper, s2):
-                    ok = True
-        if isinstance(arg, ast.Call):
-            for x in ast.walk(arg):
-                if isinstance(x, ast.Subscript) and isinstance(x.slice, ast.Slice) and is_name(x.slice.lower, s1) and is_name(x.slice.upper, s2):
-                    ok = True
+        ok = has_stmt_slice(en, arg)
     rep.ob('C04.R8', ctx.loc(f, ec), ctx.src(ec), ok, 'directives are read from the lines [%s:%s] of that statement only' % (s1, s2) if ok else 'directives are not extracted from exactly the lines of one statement', anchor=CHUNK)
     # result variable
     dvar = en.ast.targets[0].id if isinstance(en.ast, ast.Assign) and isinstance(en.ast.targets[0], ast.Name) else None
@@ -730,6 +731,13 @@ def r8_break_placement(ctx):
     breakvars = {c.func.value.id for (_, c) in apps}
     before = [(n, c) for (n, c) in apps if c.args[0].id == s1]
     after = [(n, c) for (n, c) in apps if c.args[0].id == s2]
+    if not before and not after:
+        # breaks may be placed in a separate pass over collected (start, stop, directives) records: a different idiom, not a missing break
+        sorted_lists = {y.id for x in ast.walk(f.node) if isinstance(x, ast.Call) and is_name(x.func, 'sorted') for y in ast.walk(x) if isinstance(y, ast.Name)}
+        elsewhere = [c for c in ast.walk(f.node) if isinstance(c, ast.Call) and isinstance(c.func, ast.Attribute) and c.func.attr in ('append', 'extend', 'add', 'update') and
+                     isinstance(c.func.value, ast.Name) and c.func.value.id in sorted_lists]
+        need(not elsewhere, 'C04.R8: part breaks are not placed inside the directive scan loop (they are added to `%s` elsewhere): idiom not recognised' %
+             (elsewhere[0].func.value.id if elsewhere else '?'))
     rep.ob('C04.R8', ctx.loc(f, head.ast), 'break before a statement with directives', len(before) == 1, '%d append(s) of %s' % (len(before), s1),
            nontrivial=False, anchor=CHUNK)
     rep.ob('C04.R8', ctx.loc(f, head.ast), 'break after a statement with an inline directive', len(after) == 1, '%d append(s) of %s' % (len(after), s2),
